@@ -130,6 +130,11 @@ def r2(F, R):
             return "Ok"
         sl = A.slice_back(b, rv["ops"])
         vs = [r["variant"] for _, r in sl.aggs if r.get("adt") == "runner::basic::ExecutionFailure"]
+        # ... or built by a private constructor of the failure type (`ExecutionFailure::step_panicked(..)`)
+        for _, ct in sl.calls:
+            cb = F.callee_body(ct, b.crate)
+            if cb is not None and re.sub(r"<.*", "", cb.locals[0]) == "runner::basic::ExecutionFailure":
+                vs += [stt2["rv"]["variant"] for nb in F.nested(cb) for _, stt2 in nb.assigns(lambda stt2: stt2["rv"]["k"] == "agg" and stt2["rv"].get("adt") == "runner::basic::ExecutionFailure")]
         return "Err(" + "|".join(sorted(set(vs))) + ")"
     rk = {s: ret_kind(s, stt) for s, stt in rets}
     R.check(sorted(rk.values()) == ["Err(StepPanicked)", "Err(StepSkipped)", "Ok"], "three-outcomes", b, f"{sorted(rk.values())}",
@@ -456,7 +461,8 @@ def before_table_clauses(F, R, tree):
     wn_roots = {}
     for b in tree:
         for s, t in b.calls(lambda t: callee_is(t, r"World::new$") or (callee_path(t) or "").endswith("as World>::new")):
-            wn_roots[F.root_fn(b).key] = F.root_fn(b)
+            for r_, _cs in roles.routines_of(F, b):
+                wn_roots[r_.key] = r_
     b_step, fo = run_step_body(F, tree)
     step_family = {x.key for x in roles.family(F, F.root_fn(b_step))}
     others = [r for r in wn_roots.values() if r.key not in step_family]
